@@ -188,19 +188,25 @@ def plan(quick):
     length), the release build collecting at every allocation WITHOUT quarantine (closed-form numbers are the oracle) the middle
     rungs, and the release build with its own pacing + quarantine the big ones."""
     g = 5
-    dbg = (gen_scale_cases([17], g) + gen_scale_cases([129], g, variants=("locals",))
-           + gen_scale_cases([600], g, variants=("globals",), only=CHEAP) + gen_scale_cases([320], g, variants=("globals",), only=TWO_BOX)
+    dbg = (gen_scale_cases([17], g, variants=("globals",)) + gen_scale_cases([129], g, variants=("locals",))
+           + gen_scale_cases([600], g, variants=("globals",), only={"chain_instance", "chain_vec", "chain_tuple", "chain_map", "wide_vec", "wide_map_num_keys"})
+           + gen_scale_cases([320], g, variants=("globals",), only={"chain_closure", "chain_bound_method", "chain_vec_iterator", "chain_mixed"})
            + gen_scale_cases([65], g, variants=("globals",), only={"chain_fiber"})
-           + gen_tree_cases([4, 8], g) + gen_field_cases([17, 129, 300], g) + gen_history_cases([40, 250]))
+           + gen_tree_cases([4, 7], g) + gen_field_cases([17, 129], g) + gen_history_cases([40, 120]))
     if not quick:
-        dbg += gen_scale_cases([33, 65, 300], g, variants=("globals",)) + gen_scale_cases([1100], g, variants=("locals",), only=CHEAP)
+        dbg += (gen_scale_cases([33, 65, 300], g, variants=("globals",)) + gen_scale_cases([1100], g, variants=("locals",), only=CHEAP)
+                + gen_scale_cases([450], g, variants=("globals",), only=TWO_BOX - {"deep_display_eq_hash"}) + gen_field_cases([300], g) + gen_history_cases([250]))
     mid_sizes = [1100, 2500] if quick else [1100, 2500, 5000]
-    mid = (gen_scale_cases(mid_sizes, 20, variants=("globals",), big=True, only=CHEAP) + gen_scale_cases([1100], 20, variants=("locals",), big=True)
+    mid = (gen_scale_cases(mid_sizes, 20, variants=("globals",), big=True, only=CHEAP) + gen_scale_cases([1100], 20, variants=("locals",), big=True, only=(CHEAP | TWO_BOX) - {"deep_display_eq_hash"})
+           + gen_scale_cases([500], 20, variants=("globals",), only={"deep_display_eq_hash"})
            + gen_scale_cases([300], 20, variants=("globals",), only={"chain_fiber"}) + gen_tree_cases([10], 20) + gen_field_cases([1100], 20) + gen_history_cases([2000]))
     if not quick:
-        mid += gen_scale_cases([2500], 20, variants=("globals",), big=True, only=TWO_BOX)
-    big_sizes = [5000, 20000, 70000] if quick else [5000, 20000, 70000, 200000]
-    big = (gen_scale_cases(big_sizes, 3000, variants=("globals",), big=True) + gen_scale_cases([5000], 3000, variants=("locals",), big=True)
+        mid += gen_scale_cases([2500], 20, variants=("globals",), big=True, only={"chain_bound_method", "chain_vec_iterator", "chain_mixed", "wide_map_str_keys", "many_live_strings"})
+    big_sizes = [5000, 20000] if quick else [5000, 20000, 70000]
+    big = (gen_scale_cases(big_sizes, 3000, variants=("globals",), big=True, only=CHEAP | {"chain_mixed", "chain_closure"})
+           + gen_scale_cases([70000 if quick else 200000], 3000, variants=("globals",), big=True, only={"chain_instance", "chain_vec", "chain_map", "wide_vec", "wide_map_num_keys"})
+           + gen_scale_cases([5000], 3000, variants=("globals",), big=True, only=TWO_BOX)
+           + gen_scale_cases([5000], 3000, variants=("locals",), big=True, only=CHEAP)
            + gen_tree_cases([12, 14], 3000) + gen_history_cases([30000]))
     return [("debug build collecting at every allocation, quarantine", "debug", "-", True, dbg),
             ("release build collecting at every allocation (gc=always), no quarantine", "release", "gc=always", False, mid),
